@@ -473,7 +473,7 @@ def block_diagonalize(
 
     equal_eigs = {
         i: (
-            (np.abs(diagonal[i].reshape(-1, 1) - diagonal[i]) < atol).astype(int)
+            (np.abs(diagonal[i].reshape(-1, 1) - diagonal[i]) <= atol).astype(int)
             if diagonal[i].dtype != object  # numerical array, else sympy
             else ((diagonal[i].reshape(-1, 1) == diagonal[i]) == True)  # noqa E712
         )
